@@ -250,6 +250,18 @@ func analyse(dump string) (cycle string, states []string) {
 			}
 		}
 	}
+	// the loop parked in the select of its own main function - idle - while somebody is parked posting to one of its queues:
+	// a stop-the-world snapshot of a loop that serves all of its queues cannot show that (a full queue would have been a ready
+	// case of the select), so the loop has stopped listening to a queue it is the only consumer of: it waits for itself
+	for _, g := range gs {
+		if g.role == "loop" && g.state == "select" && len(g.frames) > 0 && strings.Contains(g.frames[0], "pfcp.(*PfcpServer).main") {
+			for from, to := range edges {
+				if from != "loop" && to["loop"] {
+					add("loop", "loop")
+				}
+			}
+		}
+	}
 	sort.Strings(states)
 	// cycle through the loop?
 	var path []string
